@@ -792,8 +792,13 @@ class HttpProxyPlugin(HttpProtocolHandlerPlugin):
                 if self.flags.insecure_tls_interception
                 else ssl.VerifyMode.CERT_REQUIRED
             )
+            hostname = text_(self.request.host)
+            if hostname.startswith('[') and hostname.endswith(']'):
+                # IPv6 literals are bracketed within request targets but
+                # certificates (and SNI) carry the bare address.
+                hostname = hostname[1:-1]
             self.upstream.wrap(
-                text_(self.request.host),
+                hostname,
                 self.flags.ca_file,
                 as_non_blocking=True,
                 verify_mode=verify_mode,
